@@ -26,6 +26,15 @@ def D(x):
 
 def toks(t, fmt):
     out = set()
+    if fmt == 'acesii':
+        # ACES II is a fixed-column format (exponents 5F14.7: the writer fills all 14 columns for exponents >= 1e5, so two
+        # numbers can touch); a line with touching numbers is read the way the program reads it, in 14-character fields
+        lines = []
+        for line in t.split('\n'):
+            if any(w.count('.') > 1 for w in line.split()):
+                line = ' '.join(line[i:i + 14] for i in range(0, len(line), 14))
+            lines.append(line)
+        t = '\n'.join(lines)
     words = re.split(r'[\s,;:()=\[\]{}"]+', t)
     for w in words:
         if fmt == 'pqs' and len(w) > 1 and w[0].isalpha() and numre.match(w[1:]):
